@@ -228,7 +228,15 @@ structure PgSt where
   pseudo : Option Cps := none
   deriving Repr
 
-/-- `__parseSelectorText` (`csspagerule.py:148-245`) -/
+/-- `('first', 'left', 'right')` (`csspagerule.py:176`) -/
+def knownPseudo : List Cps :=
+  [CssVerif.Proto.cps "first", CssVerif.Proto.cps "left", CssVerif.Proto.cps "right"]
+
+/-- the pseudo-page name that is stored: the three known names in their normalised form, any other as written
+(`csspagerule.py:175-178`) -/
+def pagePseudo (v : Cps) : Cps := if knownPseudo.contains (normalize v) then normalize v else v
+
+/-- `__parseSelectorText` (`csspagerule.py:148-248`) -/
 def pgStep (s : PgSt) (t : Tok) (rest : List Tok) : PgSt × List Tok :=
   match t.typ with
   | .char =>                                              -- _char :158-194
@@ -237,7 +245,7 @@ def pgStep (s : PgSt) (t : Tok) (rest : List Tok) : PgSt × List Tok :=
       | [] => (s, rest)                                   -- no IDENT found (logged)
       | i :: rest' =>
         if i.typ ≠ .ident then (s, rest')                 -- expected IDENT (logged), the token is gone
-        else ({ s with pseudo := some i.val, exp := .eof }, rest')
+        else ({ s with pseudo := some (pagePseudo i.val), exp := .eof }, rest')
     else ({ s with wf := false }, rest)
   | .s => (if s.exp = .colonOrEof then { s with lastS := true } else s, rest)          -- S :196-201
   | .ident =>                                             -- IDENT :203-222
@@ -251,7 +259,7 @@ def pgStep (s : PgSt) (t : Tok) (rest : List Tok) : PgSt × List Tok :=
   | .eof => ({ s with exp := .eof }, rest)
   | _ => ({ s with wf := false }, rest)
 
-/-- the page selector: page name and pseudo-page ident, as written -/
+/-- the page selector: page name as written, pseudo-page name (`pagePseudo`) -/
 structure PageSel where
   name : Option Cps
   pseudo : Option Cps
